@@ -328,8 +328,11 @@ def evaluate_case(prop, case, c_res, l_res):
                       "signature": prop.signature(case, min(i, len(case.ops) - 1), "crash " + c_res["crash"]),
                       "detail": c_res["crash"]})
     # python model-free oracle
-    if hasattr(prop, "py_oracle"):
-        for (i, msg) in prop.py_oracle(case.ops, [m for m, _ in c_outs]):
+    if hasattr(prop, "py_oracle") or hasattr(prop, "py_oracle_ex"):
+        fn = getattr(prop, "py_oracle_ex", None)
+        res = (fn(case.ops, [m for m, _ in c_outs], [e for _, e in c_outs]) if fn
+               else prop.py_oracle(case.ops, [m for m, _ in c_outs]))
+        for (i, msg) in res:
             fails.append({"kind": "oracle", "op": i, "signature": prop.signature(case, i, msg),
                           "detail": msg})
     # correspondence
@@ -371,7 +374,7 @@ def main():
     ok_props, t_lake, log_props = build.lake_build(["Strophe.Props." + pid])
     ok_drv, t_drv, log_drv = build.lake_build(["drv"])
     try:
-        hdrv = build.build_harness(prop.VARIANT)
+        hdrv = build.build_harness(prop.ENGINE)
         h_err = None
     except build.BuildError as e:
         hdrv = None
